@@ -13,7 +13,7 @@ CONFIG = {
     "harness": "h_c13",
     "level": "proof",
     "extra_proof_files": ["S8bProofs", "IntProofs", "TimeProofs", "BoolProofs", "StrProofs", "FloatProofs", "WALProofs"],
-    "n": {"quick": 1000, "thorough": 6000},
+    "n": {"quick": 600, "thorough": 6000},
     "shard": 120,
     "search_rounds": 2,
     "search_boost": 2,
@@ -23,12 +23,19 @@ CONFIG = {
             "selector-targeted segments (each bit width, boundary values 2^b-1 and 2^b), constant/zero/negative/huge deltas, deltas divisible by 10^k with one exception, one delta >= 2^60, "
             "random 64-bit values, lengths 0..1200 incl. 119..122/239..242/480/481/999..1001; floats by 8 families; strings incl. empty and long; blocks through Values.Encode/DecodeBlock/Decode*ArrayBlock; "
             "WAL entries of all types, mutated payloads through the real reader, logs cut at EVERY offset (short) or at frame boundaries +-3 (long). "
-            "distinct = distinct input (hash of the sequence / entry / segment); non-trivial = non-empty sequence (floats: >= 2 values), every WAL case",
+            "every encoder additionally with dirty destination buffers and Reset+reuse (see trusted base); WAL logs additionally through the real tsm1.WAL with same-layout value flips. distinct = distinct input (hash of the sequence / entry / segment); non-trivial = non-empty sequence (floats: >= 2 values), every WAL case",
     "trusted_base": [
         "C13: snappy (golang/snappy) is abstract: theorems have the premise decode(encode b) = Some b; the correspondence compares the bytes BEFORE compression (the harness decompresses the real output) and feeds the model reader the observed (payload, compressed) pairs as the snappy oracle",
         "C13: go-bitstream BitWriter, tsm1.BitReader and the cached bit reader of FloatArrayDecodeAll are modelled as an MSB-first bit list (validated byte-exactly on every float case); truncated float streams are outside the model",
         "C13: math.Log10(float64(10^k)) = k and math.Pow10(k) = 10^k for k <= 12 (exercised for every k on each run)",
-        "C13: the unsafe slice reinterpretations (int64<->uint64) are modelled as identity on 64-bit patterns; buffer reuse (non-nil dst/b arguments) is not modelled: the harness passes nil",
+        "C13: the unsafe slice reinterpretations (int64<->uint64) are modelled as identity on 64-bit patterns",
+        "C13: the model is a pure function of the values (no buffers). The correspondence therefore also runs EVERY encoder that takes a destination or can be reused - *ArrayEncodeAll(src, b), Values.Encode(buf), "
+        "Write/Delete/DeleteRangeWALEntry.Encode(dst), and the iterator encoders after Reset - with dirty buffers (0xFF / 0x01 / pattern fill; capacity smaller, equal, larger; zero and non-zero length) and after encoding an unrelated polluting sequence; "
+        "the bytes must be identical to the fresh encode (which is compared with the model in Coq); the first differing variant replaces the recorded bytes so the model comparison and the decode-based spec see it. "
+        "Only canonicalisation: BooleanArrayEncodeAll leaves the unused low bits of the last byte as found in a dirty destination (decoders are count-limited); exactly those padding bits are masked, decodes are taken from the dirty bytes. "
+        "StringArrayEncodeAll with NO strings and a dirty buffer is not exercised (EncodeStringArrayBlock returns before calling it; its 2-byte shortcut leaves b[1] unwritten)",
+        "C13: WAL write path end to end: logs are also written through the real tsm1.WAL (WriteMulti/Delete/DeleteRange, pooled and recycled encode buffers, real segment file) with same-layout entries whose values flip between all-high and all-low, "
+        "then the file is parsed frame by frame, compared with the model's serialisation and replayed by the real WALSegmentReader at every frame boundary +-4",
         "C13: simple8b selector tables, canPack cascade order, pkg numBits, MaxValue, encoding tags, WAL entry type bytes and the start divisor 1e12 are regenerated from the source (vendored jwilder module located through go.mod) on every run",
         "C13: WriteWALEntry holds a Go map: byte-exactness of MarshalBinary is checked modulo the permutation of keys (the model parses the real bytes, compares as a map, and re-serialises to exactly the real bytes)",
     ],
